@@ -164,7 +164,10 @@ def check(run):
             ("fitting/combine_DL.py", "main", c_stages.combine_prologue_contract, "prologue", "region: from the get_functions call to xarr_proc"),
             ("fitting/test_all_Fisher.py", "load_loglike", (lambda: c_stages.load_loglike_contract(True)), "split=True", "whole function"),
             ("fitting/test_all_Fisher.py", "load_loglike", (lambda: c_stages.load_loglike_contract(False)), "split=False", "whole function"),
-            ("fitting/test_all_Fisher.py", "main", (lambda: c_fisher.main_rows_contract("ok")), "rows/ok", "region: allocation of the per-rank tables + loop body (see C07)")):
+            ("fitting/test_all_Fisher.py", "main", (lambda: c_fisher.main_rows_contract("ok")), "rows/ok", "region: allocation of the per-rank tables + loop body (see C07)"),
+            ("fitting/test_all.py", "main", (lambda: c_test_all.main_rows_contract("ok")), "rows/ok", "region: max_param / chi2 / params allocation + loop body; optimise_fun through a call-site contract"),
+            ("fitting/test_all.py", "main", (lambda: c_test_all.main_rows_contract("nameerror")), "rows/nameerror", "same region, optimise_fun raises NameError"),
+            ("fitting/test_all.py", "main", (lambda: c_test_all.main_rows_contract("exception")), "rows/timeout", "same region, the fit times out")):
         st_, f_, _e = D.verify_function(run, rel, fn, mk, timeout_ms=8000, tag=tag, note=note)
         cfailed += f_
     if D.canary(run, "fitting/combine_DL.py", "main", c_stages.combine_prologue_contract) is False:
@@ -198,5 +201,6 @@ def check(run):
             "the (data_start, data_end) of get_functions to every per-function array (chain i, match i, xarr_proc[i] belong to function data_start + i; every per-rank table has "
             "data_end - data_start rows), load_loglike returns rows data_start.. of the result file, the loop body of test_all_Fisher.main fills row i from function i; "
             "structurally: every stage writes per-rank files that carry the rank, rank 0 joins them with cat $(find | sort -V) > out (A-shell: version sort = rank order) and removes them. "
-            "test_all.main's loop body (row i from optimise_fun(fcn_list_proc[i])) is covered by the bounded stage runs only.")
+            "the loop body of test_all.main fills entry i / row i from ONE optimise_fun call for function i (NaN and a zero row when the fit raises or times out) into a table with "
+            "max(4, floor((comp - 1) / 2)) parameter columns.")
     return run.finish("proof", expl, CHECKER)
